@@ -144,7 +144,7 @@ pub fn c02_space(tier: Tier) -> DocSpace {
         s.add_all(
             "types-packed",
             gen::docs_for_types(&types, 20, pos),
-            if q { Lay::DefMin } else { Lay::Base },
+            Lay::Base,
         );
     }
     // unpacked at the next smaller bound
@@ -162,11 +162,10 @@ pub fn c02_space(tier: Tier) -> DocSpace {
         for d in gen::docs_for_member_sequences(kind, mlen) {
             let nm = d.item.members.len() + d.item.elems.len();
             let lay = if nm <= 1 || (!q && nm <= 2) { Lay::D1 } else { Lay::Base };
-            let lay = if q && nm == 2 { Lay::DefMin } else { lay };
             s.add("members", format!("members:{kind:?}:{nm}"), d, lay);
         }
     }
-    s.add_all("arguments", gen::docs_for_argument_lists(), Lay::DefMin);
+    s.add_all("arguments", gen::docs_for_argument_lists(), if q { Lay::DefMin } else { Lay::Base });
     s.add_all("values", gen::docs_for_values(), Lay::Base);
     s.add_all("annotations", gen::docs_for_annotations(), Lay::Base);
     s.add_all("headers", gen::docs_for_headers(), if q { Lay::DefMin } else { Lay::Base });
